@@ -153,10 +153,43 @@ Definition still_talking (os : list obs) : bool :=
 Definition livelock (c : cfg) (es : list tev) (os : list obs) : bool :=
   loss_free es && (4 * trip_budget c <? deliveries es) && still_talking os.
 
-(* ---- the whole property: Spec.c04_class_x first, then (A), then (B) ---- *)
+(* ---- (C) which kind of wrong body ---- *)
+(* "Duplicated, stale, out-of-order ... blocks never corrupt, truncate or extend a body": a response body that
+   is wrong for its token (Spec class 1, not one of the mixtures of distinct tokens 8 / 9) is classified further
+   from the representations the resource of the exchange had during the scenario: class 13 if it is the
+   BEGINNING of one representation followed by the REST of a different one, cut at a multiple of 16 bytes (the
+   smallest block size), with the length of the second - the blocks of one download were taken from two
+   different representations (the message the remaining blocks are sliced from was exchanged under way, or
+   the reassembly went on with blocks of another version).  Everything else stays class 1. *)
+Definition splice_of_versions (r : res) (n : nat) (d : pm) : bool :=
+  let vs := seq 0 (S n) in
+  existsb (fun v1 =>
+    existsb (fun v2 =>
+      let b1 := res_body r (Z.of_nat v1) in
+      let b2 := res_body r (Z.of_nat v2) in
+      negb (Nat.eqb v1 v2) && (plen d =? blen b2) &&
+      existsb (fun k => psum d =? csum (firstn (Z.to_nat k) b1 ++ skipn (Z.to_nat k) b2))
+              (cuts (length b1) 16 (Z.min (blen b1) (blen b2)))) vs) vs.
+
+Definition version_splice_class (c : cfg) (es : list ev) (side : Z) (d : pm) : N :=
+  if (side =? 0) && N.eqb (delivery_class c es side d) 1 && is_success_response (pcode d) then
+    match find_exch c (ptok d) false with
+    | Some x =>
+      match nth_error (cres c) (Z.to_nat (xpath x)) with
+      | Some r => if splice_of_versions r (Z.to_nat (bumps es (xpath x))) d then 13%N else 0%N
+      | None => 0%N
+      end
+    | None => 0%N
+    end
+  else 0%N.
+
+(* ---- the whole property: Spec.c04_class_x first (class 1 refined by (C)), then (A), then (B) ---- *)
 Definition c04_class_t (c : cfg) (dls : deadlines) (es : list tev) (os : list obs) (ues : list ev) : N :=
   let k := c04_class_x c ues os in
-  if negb (N.eqb k 0) then k
+  if N.eqb k 1 then
+    let m := first_class (flat_map (fun o => map (version_splice_class c ues (o_side o)) (o_deliv o)) os) in
+    if N.eqb m 0 then 1%N else m
+  else if negb (N.eqb k 0) then k
   else
     let b := bogus_continue_class c dls es os in
     if negb (N.eqb b 0) then b
